@@ -9,6 +9,7 @@
 #include <list>
 #include <memory>
 #include <set>
+#include <sstream>
 #include <boost/graph/adjacency_list.hpp>
 #include <boost/mpi/environment.hpp>
 #include <boost/mpi/communicator.hpp>
@@ -69,6 +70,11 @@ int main(int argc, char **argv) {
         std::list<std::list<Edge>> cycles;
         auto wm = get(edge_weight, g);
         double ret = 0;
+#ifdef PARMCB_VERIF
+        // every odd-cycle search this rank performs (hook in mpi/parmcb_sva_signed.hpp)
+        std::vector<parmcb::verif::SearchEvent> events;
+        parmcb::verif::search_hook() = [&](const parmcb::verif::SearchEvent &ev) { events.push_back(ev); };
+#endif
 #ifdef PARMCB_SHIM
         // every rank runs its TBB regions under its own seeded schedule of the stand-in
         tbbshim::reseed(pseed * 7919 + 104729 * (world.rank() + 1) + 1, 0);
@@ -78,7 +84,21 @@ int main(int argc, char **argv) {
         else if (entry == "mpi_fvs_tbb") ret = parmcb::mcb_sva_fvs_trees_tbb_mpi(g, wm, std::back_inserter(cycles), world);
         else if (entry == "mpi_iso") ret = parmcb::mcb_sva_iso_trees_mpi(g, wm, std::back_inserter(cycles), world);
         else if (entry == "mpi_iso_tbb") ret = parmcb::mcb_sva_iso_trees_tbb_mpi(g, wm, std::back_inserter(cycles), world);
+        std::string evtext;
+#ifdef PARMCB_VERIF
+        parmcb::verif::search_hook() = nullptr;
+        for (auto &ev : events) {
+            auto sc = [&](double w) { double x = std::ldexp(w, (int) scale); return std::to_string((long long) std::llround(x)); };
+            evtext += "hsraw " + std::to_string(ev.phase) + " " + (ev.hidden_branch ? "1" : "0") + " " + std::to_string(ev.source) + " " +
+                      (ev.use_limit ? sc(ev.limit) : std::string("-")) + " " + (ev.found ? "1" : "0") + " " + (ev.found ? sc(ev.weight) : std::string("-")) +
+                      " " + (ev.empty_signed_set ? "1" : "0");
+            for (auto h : ev.hidden) evtext += " " + std::to_string(h);
+            evtext += "\n";
+        }
+#endif
         std::string report = "rank " + std::to_string(world.rank()) + " emitted " + std::to_string(cycles.size()) + " order" + myorder;
+        std::vector<std::string> evtexts;
+        mpi::gather(world, evtext, evtexts, 0);
         std::vector<std::string> reports;
         mpi::gather(world, report, reports, 0);
         if (world.rank() == 0) {
@@ -102,6 +122,20 @@ int main(int argc, char **argv) {
                 }
             }
 #endif
+            {   // all ranks made the same number of calls so far: rank 0's first phase number is the base of this case
+                long base = -1;
+                for (auto &t : evtexts) {
+                    std::istringstream is(t); std::string ln;
+                    while (std::getline(is, ln)) {
+                        auto w = split_ws(ln);
+                        if (w.size() < 8) continue;
+                        if (base < 0) base = std::stol(w[1]);
+                        std::cout << "hs " << (std::stol(w[1]) - base);
+                        for (std::size_t i = 2; i < w.size(); i++) std::cout << " " << w[i];
+                        std::cout << "\n";
+                    }
+                }
+            }
             std::cout << "entry " << entry << " " << world.size() << "\n";
             for (auto &r : reports) std::cout << r << "\n";
             std::cout << "end" << std::endl;
